@@ -1,0 +1,43 @@
+//go:build verif
+
+package smobserver
+
+import (
+	"context"
+
+	"github.com/ethereum/go-ethereum/common"
+
+	"github.com/shutter-network/shutter/shlib/puredkg"
+
+	"github.com/shutter-network/rolling-shutter/rolling-shutter/keyper/database"
+)
+
+// VerifActiveDKG is a copy of one entry of ShuttermintState.dkg.
+type VerifActiveDKG struct {
+	Pure        *puredkg.PureDKG
+	StartHeight int64
+	Dirty       bool
+	Keypers     []common.Address
+}
+
+// VerifSnapshot returns the fields of the cache (the PureDKG pointers are the live objects).
+func (st *ShuttermintState) VerifSnapshot() (synchronized, isKeyper bool, dkg map[uint64]VerifActiveDKG) {
+	dkg = map[uint64]VerifActiveDKG{}
+	for eon, a := range st.dkg {
+		dkg[eon] = VerifActiveDKG{
+			Pure:        a.pure,
+			StartHeight: a.startHeight,
+			Dirty:       a.dirty,
+			Keypers:     append([]common.Address{}, a.keypers...),
+		}
+	}
+	return st.synchronized, st.isKeyper, dkg
+}
+
+// VerifLoadFresh builds a new ShuttermintState for the config and loads it from the database,
+// as the first block transaction after a start does.
+func VerifLoadFresh(ctx context.Context, config Config, queries *database.Queries) (*ShuttermintState, error) {
+	st := NewShuttermintState(config)
+	err := st.Load(ctx, queries)
+	return st, err
+}
